@@ -861,8 +861,9 @@ func AdoptSession(p Persistence, c *Config) (client *Client, warn []error, fatal
 	// > 0) and PUBREL Packets using their original Packet Identifiers.”
 	// — MQTT Version 3.1.1, conformance statement MQTT-4.4.0-1
 	var publishAtLeastOnceKeys, publishExactlyOnceKeys, publishReleaseKeys []uint
+	var corruptMarkerKeys []uint
 	for _, key := range keys {
-		if key == clientIDKey || key&remoteIDKeyFlag != 0 {
+		if key == clientIDKey {
 			continue
 		}
 		value, err := p.Load(key)
@@ -871,6 +872,12 @@ func AdoptSession(p Persistence, c *Config) (client *Client, warn []error, fatal
 		}
 
 		packet, storageSeqNo, err := decodeValue(value)
+		if err != nil && key&remoteIDKeyFlag != 0 {
+			// The presence of the key is what matters.
+			corruptMarkerKeys = append(corruptMarkerKeys, key)
+			warn = append(warn, fmt.Errorf("%w; record %#x restored", err, key))
+			continue
+		}
 		if err != nil {
 			delErr := p.Delete(key)
 			if delErr != nil {
@@ -935,6 +942,13 @@ func AdoptSession(p Persistence, c *Config) (client *Client, warn []error, fatal
 	for _, n := range storeOrderPerKey {
 		if n > rugged.seqNo.Load() {
 			rugged.seqNo.Store(n)
+		}
+	}
+	// A corrupt marker blocks reception on retransmission of its PUBLISH.
+	for _, key := range corruptMarkerKeys {
+		err := rugged.Save(key, net.Buffers{{typePUBREC << 4, 2, byte(key >> 8), byte(key)}})
+		if err != nil {
+			return nil, warn, err
 		}
 	}
 	client = newClient(rugged, c)
